@@ -63,6 +63,10 @@ def sample(rx_src):
     return gen(sre_parse.parse(rx_src))
 
 
+def variants(seq):
+    return {seq[left:len(seq) - right] + (seq[-1],) for left in range(len(seq)) for right in range(1, len(seq) - left + 1)}
+
+
 SOFT_SHAPES = ["", "8.180 (V200R005C10SPC800)", "VRP (R) software, Version 8.210", "7.0(3)I7(9)", "4.28.3M", "Cumulus Linux 4.4", "SwitchDev", "SONiC"]
 
 
@@ -99,6 +103,12 @@ def run(ctx):
                 break
         else:
             ctx.skip("no model string synthesised for %s" % ".".join(seq))
+    allv = {}
+    for q in seqs:
+        for v in variants(q):
+            allv[v] = allv.get(v, 0) + 1
+    shared = {v for v, n in allv.items() if n > 1}
+    ctx.cov["shared_short_spellings"] = sorted(".".join(v) for v in shared)
     reg = registry_connector.get()
     canon_models = {v: reg[v].hardware.model for v in reg}
     allm = [(".".join(s), m) for s, m in models.items()] + [("vendor:" + v, m) for v, m in canon_models.items() if m]
@@ -114,6 +124,14 @@ def run(ctx):
                     true_full.append(list(s))
             except AttributeError:
                 pass
+        # short spellings (input generation: every abbreviation of the true sequences, and every spelling two sequences share)
+        spell = []
+        for v in sorted(set().union(*[variants(tuple(q)) for q in true_full] or [set()]) | shared):
+            try:
+                ans = "true" if hw.match(".".join(v)) else "false"
+            except AttributeError:
+                ans = "refused"
+            spell.append({"v": list(v), "ans": ans})
         cands = []
         matching = []
         for name in reg:
@@ -145,7 +163,7 @@ def run(ctx):
                 last = r3.match(hw, None)
             choices.append(last.NAME if last is not None else "generic")
         recs.append({"id": "model-%d" % len(recs), "kind": "model", "label": label, "model": model, "hits": hits, "seqs": [list(s) for s in seqs],
-                     "trueFull": true_full, "cands": cands, "choices": choices})
+                     "trueFull": true_full, "spell": spell, "cands": cands, "choices": choices})
         ctx.count()
         if len(true_full) >= 2:
             ctx.nontrivial(model)
